@@ -137,6 +137,11 @@ func (x *Exec) lockModel(fr *Frame, st *State, pc *preparedCall, name string, k 
 		} else {
 			lockOb("locklevel", site, BoolLit(okLevel))
 			_ = why
+			if fr.top != nil {
+				if own := blocksAt(fr.top.Contract); own > level {
+					lockOb("locklevel", fmt.Sprintf("declared blocks-at %d but blocks on level %d@%s", own, level, site), TFalse)
+				}
+			}
 		}
 		st.held = append(st.held, heldLock{ID: id, Level: level, Write: op == "lock", Desc: desc})
 		x.havocVolatile(st, desc)
@@ -244,4 +249,64 @@ func (x *Exec) havocVolatile(st *State, desc string) {
 		x.lazyHavoc(st, "."+parts[len(parts)-1])
 	}
 	st.setGhostArr("jexp", Var(x.fresh("G_jexp"), ArrOf(SInt)))
+}
+
+// checkLoopBalance: an iteration leaves the held set as it found it.
+func (x *Exec) checkLoopBalance(fr *Frame, st *State, atHead []heldLock, lc loopCtl, n ast.Node) {
+	if fr.depth != 0 || x.cur == nil || !(x.cur.usesLocks || len(atHead) > 0 || len(st.held) > 0) {
+		return
+	}
+	same := len(atHead) == len(st.held)
+	if same {
+		for i := range atHead {
+			if !termEqualSyntactic(atHead[i].ID, st.held[i].ID) {
+				same = false
+			}
+		}
+	}
+	var descs []string
+	for _, h := range st.held {
+		descs = append(descs, h.Desc)
+	}
+	x.oblige(fr, st, "balanced", fmt.Sprintf("loop%d", lc.ord), BoolLit(same), n)
+	ob := x.Obls[len(x.Obls)-1]
+	ob.Tag = "C14"
+	if !same {
+		ob.Pos = fmt.Sprintf("%s: held at the end of an iteration: %v", x.pos(n), descs)
+	}
+}
+
+// blocksAt reads "ghost blocks-at N" from a contract: the lowest lock level the
+// function (or what it calls) may block on.  0 = not declared.
+func blocksAt(fc *FuncContract) int {
+	for _, g := range fc.Ghost {
+		if strings.HasPrefix(g, "blocks-at ") {
+			n, _ := strconv.Atoi(strings.TrimSpace(strings.TrimPrefix(g, "blocks-at ")))
+			return n
+		}
+	}
+	return 0
+}
+
+// callBlocks: calling something that may block on level n needs every held lock below n;
+// and the calling function's own declaration must not promise more than its callee.
+func (x *Exec) callBlocks(fr *Frame, st *State, fc *FuncContract, name, site string, n ast.Node) {
+	lvl := blocksAt(fc)
+	if lvl == 0 {
+		return
+	}
+	ok := true
+	for _, h := range st.held {
+		if h.Level >= lvl {
+			ok = false
+		}
+	}
+	x.oblige(fr, st, "locklevel", fmt.Sprintf("call %s (blocks at level %d)@%s", name, lvl, site), BoolLit(ok), n)
+	x.Obls[len(x.Obls)-1].Tag = "C14"
+	if fr.top != nil && fr.depth == 0 {
+		if own := blocksAt(fr.top.Contract); own > lvl {
+			x.oblige(fr, st, "locklevel", fmt.Sprintf("declared blocks-at %d but calls %s which blocks at %d@%s", own, name, lvl, site), TFalse, n)
+			x.Obls[len(x.Obls)-1].Tag = "C14"
+		}
+	}
 }
